@@ -219,7 +219,9 @@ RulesOutcomes(cfg, rq) ==
          ELSE dr
 
 \* ---------------------------------------------------------------- hosts file
-V6Tokens == {"h6a", "h6m", "v6a", "v6m", "l6"}
+\* Address tokens that stand for IPv6 addresses (h6m / v6m: IPv4-mapped ones,
+\* which are IPv6 addresses and answer AAAA questions).
+V6Tokens == {"h6a", "h6b", "h6c", "h6m", "v6a", "v6b", "v6m", "l6"}
 IsV6(tok) == tok \in V6Tokens
 
 IsRev(n) == Len(n) = 2 /\ n[2] = "REV"
